@@ -48,7 +48,7 @@ ModelAction(e) ==
     \/ e.a = "Msg"        /\ Msg(e.s, e.cmd, e.arg, e.via)
     \/ e.a = "Snapshot"   /\ SnapshotV(e.mode, e.via)
     \/ e.a = "Restart"    /\ RestartV(e.observe)
-    \/ e.a = "Battery"    /\ UNCHANGED vars      \* behaviour battery on the live node at the end of a program
+    \/ e.a = "Battery"    /\ BatteryV
 
 SessMatches(e) ==
     \A u \in Users :
@@ -58,14 +58,14 @@ SessMatches(e) ==
         /\ m.st \in LiveSt => (o.oper = m.oper /\ o.addr = m.addr /\ ToSet(o.chans) = m.chans)
 
 Matches(e) ==
-    /\ e.a \notin {"Battery", "Inject"} => e.res = last'.res     \* an injected entry has no answer
+    /\ e.a # "Inject" => e.res = last'.res     \* an injected entry has no answer
     /\ e.post.rev = live'.rev
     /\ OCfg(e.post.cfg) = live'.cfg
     /\ e.post.exp = fsmExp'
     /\ SessMatches(e)
     /\ \A k \in DOMAIN e.reps :
          LET r == e.reps[k]
-             S == IF r.mode = "replay_log" THEN full ELSE IF r.mode = "live" THEN live ELSE Restored IN
+             S == IF r.mode = "replay_log" THEN full ELSE IF r.mode = "live" THEN live' ELSE Restored IN
          r.rev = S.rev /\ OCfg(r.cfg) = S.cfg /\ r.exp = S.cfg.exp
 
 Step ==
@@ -126,6 +126,38 @@ T_ExpirationFollowsConfig ==
     IsStep => (ev.post.exp = ev.post.cfg.exp /\ \A k \in DOMAIN ev.reps : ev.reps[k].exp = ev.reps[k].cfg.exp)
 
 Tri(b) == IF b THEN "yes" ELSE "no"
+Addrs == {"l", "a1", "a2"}
+
+(* BansAreExactlyConfig: who is treated as banned (IRCServer.Banned after   *)
+(* every step; a message from each address in the batteries) is exactly the  *)
+(* [Banned] table of the configuration in force on that node                 *)
+T_BansAreExactlyConfig ==
+    IsStep =>
+      /\ ToSet(ev.post.bannedFn) = ToSet(ev.post.cfg.banned)
+      /\ \A k \in DOMAIN ev.reps :
+           LET r == ev.reps[k] IN
+           /\ ToSet(r.bannedFn) = ToSet(r.cfg.banned)
+           /\ \A x \in Addrs : r.beh.banned[x] \in {"na", Tri(x \in ToSet(r.cfg.banned))}
+
+(* ReplicasAgreeOnBans: the node before it was shut down, the replica that   *)
+(* replayed the log in a fresh process and the one restored from the         *)
+(* snapshot agree on who is banned                                           *)
+T_ReplicasAgreeOnBans ==
+    (IsStep /\ ev.a = "Restart") =>
+      \A k \in DOMAIN ev.reps :
+        /\ ToSet(ev.reps[k].bannedFn) = ToSet(ev.pre.bannedFn)
+        /\ \A j \in DOMAIN ev.reps : \A x \in Addrs :
+              LET p == ev.reps[k].beh.banned[x]
+                  q == ev.reps[j].beh.banned[x] IN
+              p = "na" \/ q = "na" \/ p = q
+
+(* AcceptedPostReplacesBans: an accepted update replaces the bans in force   *)
+(* (listed or GLINE'd) by those it lists -- none, when it has no or an empty  *)
+(* [Banned] table; only the re-post of GET /config carries them over          *)
+T_AcceptedPostReplacesBans ==
+    (IsStep /\ ev.a = "PostConfig" /\ ev.res = "ok") =>
+      LET want == IF ev.body = "R" THEN ToSet(ev.pre.cfg.banned) ELSE Proj(ev.body).banned IN
+      ToSet(ev.post.bannedFn) = want /\ ToSet(ev.post.cfg.banned) = want
 
 (* behaviour that depends on the configuration follows the configuration in *)
 (* force: on the live node (real HTTP requests) and on the replicas (battery)*)
@@ -149,7 +181,6 @@ T_BehaviourUsesConfig ==
            /\ b.login \in {"na", IF d.capLogin THEN "stuck" ELSE "in"}
            /\ \A o \in {"o1", "o2", "ox"} : b.oper[o] \in {"na", Tri(o \in d.ops)}
            /\ \A s \in {"s1", "s2"} : b.svc[s] \in {"na", Tri(s \in d.svc)}
-           /\ \A x \in {"a1", "a2"} : b.banned[x] \in {"na", Tri(x \in d.banned)}
            /\ b.capx \in {"na", Tri(d.capUrl # "" /\ d.capKey # "")}
            /\ b.joins \in {-1, IF d.maxC = 0 THEN 4 ELSE IF d.maxC - r.nC > 4 THEN 4 ELSE IF d.maxC - r.nC < 0 THEN 0 ELSE d.maxC - r.nC}
 
